@@ -38,6 +38,8 @@ impl Recorder {
         self.out.flush().unwrap();
         writeln!(self.out, "{{\"ev\":\"reset\"}}").unwrap();
         self.histories += 1;
+        HISTORIES.store(self.histories as u64, std::sync::atomic::Ordering::Relaxed);
+        beat();
     }
     pub fn emit(&mut self, v: Value) {
         if self.samples.len() < 3 && (self.events % 97 == 0) {
@@ -49,6 +51,7 @@ impl Recorder {
         serde_json::to_writer(&mut self.out, &v).unwrap();
         self.out.write_all(b"\n").unwrap();
         self.events += 1;
+        beat();
     }
     pub fn class(&mut self, name: &str) {
         *self.classes.entry(name.to_string()).or_insert(0) += 1;
@@ -76,8 +79,55 @@ pub fn rng(seed: u64, stream: u64) -> StdRng {
     StdRng::seed_from_u64(seed.wrapping_mul(0x9E3779B97F4A7C15).wrapping_add(stream))
 }
 
+// ---- watchdog: a library call that never returns is an observation ("hang"), not a tool problem --------------------
+static BEAT: std::sync::atomic::AtomicU64 = std::sync::atomic::AtomicU64::new(0);
+static HISTORIES: std::sync::atomic::AtomicU64 = std::sync::atomic::AtomicU64::new(0);
+static PENDING: std::sync::Mutex<String> = std::sync::Mutex::new(String::new());
+
+#[inline]
+pub fn beat() {
+    BEAT.fetch_add(1, std::sync::atomic::Ordering::Relaxed);
+}
+/// Describe the call history that is about to be run (written to `<trace>.hang` if it never comes back).
+pub fn set_pending(desc: String) {
+    *PENDING.lock().unwrap() = desc;
+    beat();
+}
+/// Exit code of the recorder when the watchdog fired.
+pub const HANG_EXIT: i32 = 96;
+/// Start the watchdog: when the recorder makes no progress (no event, no history, no guarded call entered or left) for
+/// LMV_WATCHDOG_SECS seconds (default 60; a whole quick recording takes seconds), `<trace>.hang` is written and the
+/// process exits with HANG_EXIT.
+pub fn start_watchdog(trace_path: &str) {
+    let path = format!("{}.hang", trace_path);
+    let limit: u64 = std::env::var("LMV_WATCHDOG_SECS").ok().and_then(|x| x.parse().ok()).unwrap_or(60);
+    std::thread::spawn(move || {
+        let mut last = BEAT.load(std::sync::atomic::Ordering::Relaxed);
+        let mut idle = 0u64;
+        loop {
+            std::thread::sleep(std::time::Duration::from_secs(1));
+            let now = BEAT.load(std::sync::atomic::Ordering::Relaxed);
+            if now != last { last = now; idle = 0; continue; }
+            idle += 1;
+            if idle >= limit {
+                let pending = PENDING.try_lock().map(|g| g.clone()).unwrap_or_default();
+                let v = json!({"hang": true, "idle_seconds": idle, "completed_histories": HISTORIES.load(std::sync::atomic::Ordering::Relaxed),
+                               "pending": pending});
+                let _ = std::fs::write(&path, v.to_string());
+                std::process::exit(HANG_EXIT);
+            }
+        }
+    });
+}
+
 /// Run `f`, turning a panic into `Err(message)`.
 pub fn guarded<R>(f: impl FnOnce() -> R) -> Result<R, String> {
+    beat();
+    let r = guarded_inner(f);
+    beat();
+    r
+}
+fn guarded_inner<R>(f: impl FnOnce() -> R) -> Result<R, String> {
     match catch_unwind(AssertUnwindSafe(f)) {
         Ok(r) => Ok(r),
         Err(e) => {
@@ -93,9 +143,19 @@ pub fn guarded<R>(f: impl FnOnce() -> R) -> Result<R, String> {
     }
 }
 
+/// Last panic seen by the hook: (source file of the panic site, message).
+pub static LAST_PANIC: std::sync::Mutex<(String, String)> = std::sync::Mutex::new((String::new(), String::new()));
 pub fn silence_panics() {
-    std::panic::set_hook(Box::new(|_| {}));
+    std::panic::set_hook(Box::new(|info| {
+        let loc = info.location().map(|l| format!("{}:{}", l.file(), l.line())).unwrap_or_default();
+        let msg = if let Some(s) = info.payload().downcast_ref::<&str>() { s.to_string() }
+                  else if let Some(s) = info.payload().downcast_ref::<String>() { s.clone() } else { "panic".to_string() };
+        if let Ok(mut g) = LAST_PANIC.try_lock() { *g = (loc, msg); }
+    }));
 }
+/// Exit code used when a panic raised OUTSIDE the harness's own source files escaped every guard (e.g. while library
+/// state was being read back): an observation about the code under test.
+pub const LIB_PANIC_EXIT: i32 = 97;
 
 pub const NAN_S: i64 = 1073741823;   // sentinels for values that are not on the grid (TLC cannot mix strings and integers)
 pub const PINF_S: i64 = 1073741822;
